@@ -2,7 +2,8 @@
 (* C10: statement trees, their layouts as YANG text, and the reading of a text
    back into a tree.
 
-   A tree node is [kw, hasArg, arg, subs]; kw and arg are texts (YangChars).
+   A tree node is [kw, hasArg, arg, subs, raw]; kw and arg are texts (YangChars);
+   raw, if not empty, gives the argument in a fixed source form instead (RawNode).
    Lay... renders a tree: the trivia placed at every token boundary and the
    quoting form of every argument are chosen by the picks P (boundary number ->
    menu index) and Q (argument number -> form), and the rendering returns the text
@@ -17,7 +18,11 @@
    ParseText inverts the rendering (YangTreeGen).                                  *)
 EXTENDS YangLexer, YangString, TLC
 
-Node(kw, hasArg, arg, subs) == [kw |-> kw, hasArg |-> hasArg, arg |-> IF hasArg THEN arg ELSE << >>, subs |-> subs]
+Node(kw, hasArg, arg, subs) == [kw |-> kw, hasArg |-> hasArg, arg |-> IF hasArg THEN arg ELSE << >>, subs |-> subs, raw |-> << >>]
+\* a statement whose argument is given in its source form (pieces as in YangString!RenderArg): what it stands for
+\* depends on where the rendering puts its opening quotes - the value is that of its own source form at its own place
+RawNode(kw, pieces, subs) == [kw |-> kw, hasArg |-> TRUE, arg |-> << >>, subs |-> subs, raw |-> pieces]
+IsRaw(n) == n.raw # << >>
 
 \* ------------------------------------------------------------------ reading
 Typ(its, i) == IF i <= Len(its) THEN its[i].typ ELSE "END"
@@ -33,7 +38,7 @@ ParseQuoted(its, t, i) ==
   THEN LET src == Txt(t, its[i + 1])  e == its[i].end IN
        IF t[e] = SQ THEN [ok |-> TRUE, val |-> src, judged |-> TRUE, next |-> i + 3]
        ELSE LET qc == WidthBack(t, e) IN
-            [ok |-> TRUE, val |-> DecodeDQ(src, qc), judged |-> JudgedDQ(src, qc) /\ (NoLF(src) \/ AsciiBack(t, e)), next |-> i + 3]
+            [ok |-> TRUE, val |-> DecodeDQ(src, qc), judged |-> JudgedDQ(src, qc), next |-> i + 3]
   ELSE PFail
 RECURSIVE ParseConcat(_, _, _, _, _)
 ParseConcat(its, t, i, val, j) ==
@@ -121,7 +126,7 @@ LayStmt(P, Q, tx, b, n) ==
   LET t1 == tx \o Pick(TrivOpt, P, b)
       kwi == Len(t1) + 1
       t2 == t1 \o n.kw
-      ps == Pieces(n.arg, Q[1 + ((b - 1) % Len(Q))])
+      ps == IF IsRaw(n) THEN n.raw ELSE Pieces(n.arg, Q[1 + ((b - 1) % Len(Q))])
       r == IF n.hasArg
            THEN RenderArg(t2 \o Pick(TrivSep, P, b + 1), ps,
                           [k \in 1..(Len(ps) - 1) |-> Pick(TrivOpt, P, b + 2 * k) \o <<PLUS>> \o Pick(TrivOpt, P, b + 2 * k + 1)])
@@ -146,8 +151,10 @@ Layout(P, Q, n, last) == LET s == LayStmt(P, Q, << >>, 1, n) IN
 
 \* a value the renderings stand for: every judged argument decodes to the source argument
 RECURSIVE ArgsKept(_, _)
-ArgsKept(src, ann) == /\ (ann.argJ => ann.arg = src.arg) /\ ann.kw = src.kw /\ Len(ann.subs) = Len(src.subs)
+ArgsKept(src, ann) == /\ (ann.argJ /\ ~IsRaw(src) => ann.arg = src.arg) /\ ann.kw = src.kw /\ Len(ann.subs) = Len(src.subs)
                       /\ \A i \in 1..Len(src.subs) : ArgsKept(src.subs[i], ann.subs[i])
+RECURSIVE HasRaw(_)
+HasRaw(n) == IsRaw(n) \/ \E i \in 1..Len(n.subs) : HasRaw(n.subs[i])
 RECURSIVE AllJudged(_)
 AllJudged(ann) == ann.argJ /\ \A i \in 1..Len(ann.subs) : AllJudged(ann.subs[i])
 =============================================================================
